@@ -27,6 +27,9 @@ MK = {
     "map": lisp_eval("(fn [produce i n] (map produce (range i n)))", "verif.c06"),
     "filter-map": lisp_eval("(fn [produce i n] (filter some? (map produce (range i n))))", "verif.c06"),
     "concat": lisp_eval("(fn [produce i n] (concat (map produce (range i (min n 1))) (map produce (range (min n 1) n))))", "verif.c06"),
+    "concat-2-2": lisp_eval("(fn [produce i n] (concat (map produce (range i (min n 2))) (map produce (range (min n 2) n))))", "verif.c06"),
+    "mapcat": lisp_eval("(fn [produce i n] (mapcat (fn [r] (map produce r)) [(range i (min n 2)) (range (min n 2) n)]))", "verif.c06"),
+    "lazy-cat": lisp_eval("(fn [produce i n] (lazy-cat (map produce (range i (min n 2))) (map produce (range (min n 2) n))))", "verif.c06"),
     "iterate": lisp_eval("(fn [produce i n] (take n (map produce (iterate inc i))))", "verif.c06"),
     "py-iterable": lisp_eval("(fn [produce i n] (map produce (seq (python/list (range i n)))))", "verif.c06"),
 }
@@ -75,23 +78,31 @@ def run_history(kind, n, throw_at, ops):
         if CALLS and max(CALLS) > demanded + LOOKAHEAD[kind]:
             return ("produced-undemanded", max(CALLS), demanded)
     return True
-LOOKAHEAD = {"lazy-seq": 0, "map": 0, "filter-map": 0, "concat": 0, "iterate": 0, "py-iterable": 0}
+LOOKAHEAD = {"lazy-seq": 0, "map": 0, "filter-map": 0, "concat": 0, "concat-2-2": 0, "mapcat": 0, "lazy-cat": 0, "iterate": 0, "py-iterable": 0}
 def DIAG(**k):
     ops = [(k[f"o{j}"], k[f"c{j}"]) for j in range(8) if f"o{j}" in k]
     return {"history": run_history(KIND, k["n"], k["t"], ops), "calls": list(CALLS)}
 '''
 
 
-def spec(kind, nops, timeout, with_throw):
+COMPONENT_STARTS = {"concat": (0, 1), "concat-2-2": (0, 2), "mapcat": (0, 2), "lazy-cat": (0, 2)}   # indices that are the first element of a concatenated component
+
+
+def spec(kind, nops, timeout, throw_at=None, nmax=3):
+    """throw_at None: no exceptions; otherwise the producer raises (once) at exactly that index, one obligation per index
+    (a spec stops at its first counterexample, so a known failing index must not hide the others)"""
     args = "n: int, t: int, " + ", ".join(f"o{j}: int, c{j}: int" for j in range(nops))
-    pre = ["0 <= n <= 3", ("-1 <= t < 3" if with_throw else "t == -1")] + [x for j in range(nops) for x in (f"0 <= o{j} < 4", f"0 <= c{j} <= {j}")]
+    pre = [f"0 <= n <= {nmax}", (f"t == {throw_at}" if throw_at is not None else "t == -1")] + [x for j in range(nops) for x in (f"0 <= o{j} < 4", f"0 <= c{j} <= {j}")]
     ops = ", ".join(f"(o{j}, c{j})" for j in range(nops))
     body = f"    return run_history(KIND, n, t, [{ops}]) is True"
-    return Spec(f"{kind}/history-len={nops}/{'with-throwing-producer' if with_throw else 'no-exceptions'}",
+    pos = ""
+    if throw_at is not None and kind in COMPONENT_STARTS:
+        pos = "first-element-of-a-component" if throw_at in COMPONENT_STARTS[kind] else "inner-element"
+    return Spec(f"{kind}/history-len={nops}/" + (f"producer-throws-at-{throw_at}" if throw_at is not None else "no-exceptions"),
                 harness(args, body, pre=pre, module_code=MODULE + f"\nKIND = {kind!r}\n", warm=[]), timeout=timeout,
-                bound=f"sequences of <= 3 elements, {nops} consumption steps (first/rest/next/seq on any cell obtained so far)"
-                      + (", producer throwing at a solver-chosen index" if with_throw else ""),
-                meta={"kind": kind, "throw": with_throw})
+                bound=f"sequences of <= {nmax} elements, {nops} consumption steps (first/rest/next/seq on any cell obtained so far)"
+                      + (f", producer throwing once at index {throw_at}" if throw_at is not None else ""),
+                meta={"kind": kind, "throw": throw_at is not None, "throw_position": pos})
 
 
 def run(rep, tier, seed):
@@ -100,13 +111,16 @@ def run(rep, tier, seed):
     rep.extra["native_module"] = _env.build_native()
     rep.encoded("rust/src/basilisp_native/seq.rs", [], "the native LazySeq/Cons/Sequence run concretely (compiled module); not symbolically executed")
     rep.encoded_lisp("src/basilisp/core.lpy", ["lazy-seq", "map", "filter", "concat", "iterate", "take", "range", "seq"], "compiled from source, executed under CrossHair")
-    kinds = ["lazy-seq", "map", "filter-map", "concat", "iterate", "py-iterable"]
+    kinds = ["lazy-seq", "map", "filter-map", "concat", "concat-2-2", "mapcat", "lazy-cat", "iterate", "py-iterable"]
     nops = 3 if quick else 4
     to = 90 if quick else 600
     specs = []
     for k in kinds:
-        specs.append(spec(k, nops, to, False))
-        specs.append(spec(k, nops, to, True))
+        nmax = 4 if k in ("concat-2-2", "mapcat", "lazy-cat") else 3
+        tk = to * 2 if (quick and k in COMPONENT_STARTS) else to     # concat-family paths are ~1.5x slower
+        specs.append(spec(k, nops, tk, None, nmax))
+        for t in range(nmax):
+            specs.append(spec(k, nops, tk, t, nmax))
     rep.bounds = {"elements": "<= 3", "consumption steps": nops, "producers": kinds}
     rep.outside = ["multi-threaded consumers, deadlock freedom: NOT APPLICABLE to this technique here (native Rust under parking_lot + GIL; see DESIGN section 5)",
                    "the Rust code itself is executed, not encoded", "count / nth / Python iteration as consumers"]
@@ -116,7 +130,7 @@ def run(rep, tier, seed):
     def matcher(spec_, cex, line=""):
         kind = "other"
         if spec_.meta["throw"] and cex.get("t", -1) >= 0:
-            kind = "sequence-corrupted-after-producer-exception/" + spec_.meta["kind"]
-        return {"kind": kind}
+            kind = "sequence-corrupted-after-producer-exception/" + ("concat-family" if spec_.meta["kind"] in COMPONENT_STARTS else spec_.meta["kind"])
+        return {"kind": kind, "throw_position": spec_.meta["throw_position"]}
 
     run_specs(rep, specs, matcher, lambda s, c: f"{s.name}: {c}")
